@@ -33,6 +33,8 @@ type Obligation struct {
 	Output  string
 	Inlined bool
 	Candidate bool // sat only on the ground-instantiated query
+	ModelScript string // the query that was sat (for follow-up get-value queries)
+	ModelQuant  bool
 }
 
 type Assumption struct {
